@@ -96,6 +96,7 @@ type Obligation struct {
 	AllRes    map[string]string `json:"all_results,omitempty"`
 	SiteKey   string   `json:"-"`
 	ReplayConfirmed bool `json:"replay_confirmed,omitempty"`
+	ClauseRef *Clause `json:"-"`
 	fv        *FnV
 }
 
@@ -156,6 +157,7 @@ type pendingOb struct {
 	props []string
 	parts []string
 	pos token.Pos
+	cl *Clause
 }
 
 func (fv *FnV) addPending(st *State, kind, label string, props []string, goal, clause string, pos token.Pos) {
@@ -175,7 +177,8 @@ func (fv *FnV) addPending(st *State, kind, label string, props []string, goal, c
 func (fv *FnV) flushPending() {
 	for _, key := range fv.pendingOrder {
 		p := fv.pending[key]
-		fv.emit(nil, p.kind, p.label, p.props, and(p.parts...), p.clause, p.pos)
+		o := fv.emit(nil, p.kind, p.label, p.props, and(p.parts...), p.clause, p.pos)
+		o.ClauseRef = p.cl
 	}
 	fv.pending, fv.pendingOrder = nil, nil
 }
